@@ -55,6 +55,25 @@ func stallCases() []harness.Case {
 			c.Outcome(fmt.Sprintf("%s|%v", name, r.Calls))
 		}})
 	}
+	cases = append(cases, harness.Case{ID: "stall/late-sync-failure/sign-retry", Run: func(c *harness.C) {
+		c.Exec("[stall/late-sync-failure]")
+		var r stalllib.LateResult
+		if rec := c.Bubble(func() { r = stalllib.LateSyncFailure() }); rec != nil && !harness.IsLeakPanic(rec) {
+			panic(rec)
+		}
+		for _, n := range r.Notes {
+			c.Note("stall/late-sync-failure", n)
+		}
+		c.Add("executions", 1)
+		rp := map[string]interface{}{"stall": "late-sync-failure"}
+		if !r.Reached {
+			c.Violation("finished-session-leaves-later-one-alone", "c12-finished-session-unregisters-retry", "a Sign on topic a timed out; its synchronisation goroutine learnt of the failure only after the caller had retried on the same topic: afterwards a synchronisation message for the topic no longer reaches the retry's session", rp)
+		}
+		if r.Third.Returned && r.Third.Err == nil || !r.Third.Returned {
+			c.Violation("second-concurrent-session-refused", "c12-retry-not-seen-by-duplicate-check", fmt.Sprintf("... and a third, concurrent Sign on the topic was not refused (%s)", describeCall(r.Third)), rp)
+		}
+		c.Outcome(fmt.Sprintf("late-sync|%v|%v", r.Reached, r.Third.Err != nil))
+	}})
 	return cases
 }
 
